@@ -8,3 +8,8 @@ import _ "unsafe" // go:linkname
 //
 //go:linkname verifSetDet runtime.verifSetDet
 func verifSetDet(on bool, seed uint64)
+
+// verifGoid (runtime overlay) returns the id of the calling goroutine.
+//
+//go:linkname verifGoid runtime.verifGoid
+func verifGoid() uint64
